@@ -27,6 +27,14 @@ import (
 type cOp struct {
 	Op  string `json:"op"`
 	Arg int    `json:"arg"`
+	// Gate (operation A only) names the point inside the operation at which A is parked:
+	//   "" / "hook"  A's own port hook position (send: under the port lock after the push; deliver: under the lock
+	//                before the push; retrievein/retrieveout: after the lock was released)
+	//   "meta<k>"    the k-th call of Meta() on the message A sends (Send validates the message through the
+	//                messaging.Msg interface before it touches the buffer: under the port lock in the pinned tree)
+	//   "notify"     inside the notification A itself must issue (send: NotifySend, deliver: NotifyRecv — both after
+	//                the lock was released; retrievein: NotifyAvailable, retrieveout: NotifyPortFree — both under the lock)
+	Gate string `json:"gate,omitempty"`
 }
 
 type cState struct {
@@ -43,6 +51,24 @@ type cInput struct {
 	WaitUS  int      `json:"wait_us"`
 	Workers int      `json:"workers"`
 	MaxMis  int      `json:"max_mismatches"`
+	// SameBufferOnly keeps only the B sequences whose operations all work on the buffer A works on
+	SameBufferOnly bool `json:"same_buffer_only"`
+	// Record returns, for every case in which A was parked at its gate (at most RecordMax of them, every RecordEvery-th),
+	// the run as a record for the trace specification PortPairTrace.tla
+	Record      bool `json:"record"`
+	RecordEvery int  `json:"record_every"`
+}
+
+var bufferOf = map[string]string{"send": "out", "retrieveout": "out", "numout": "out", "peekout": "out", "cansend": "out",
+	"deliver": "in", "retrievein": "in", "numin": "in", "peekin": "in", "candeliver": "in"}
+
+func sameBuffer(a cOp, b []cOp) bool {
+	for _, op := range b {
+		if bufferOf[op.Op] != bufferOf[a.Op] {
+			return false
+		}
+	}
+	return true
 }
 
 type cMismatch struct {
@@ -54,6 +80,7 @@ type cMismatch struct {
 	Observed map[string]any `json:"observed"`
 	Orders   []any          `json:"sequential_orders"`
 	Missing  []string       `json:"missing,omitempty"`
+	ID       int            `json:"case_id"`
 }
 
 type cOutput struct {
@@ -65,6 +92,16 @@ type cOutput struct {
 	Samples     []any          `json:"samples"`
 	MismatchesN int            `json:"mismatch_count"`
 	ByPair      map[string]int `json:"cases_by_pair"`
+	// per "op@gate": cases, A parked at the gate, B completed while A was parked, B blocked until the release
+	ByGate  map[string]*[4]int `json:"by_gate"`
+	Records []any              `json:"records,omitempty"`
+}
+
+func gateName(a cOp) string {
+	if a.Gate == "" {
+		return a.Op + "@hook"
+	}
+	return a.Op + "@" + a.Gate
 }
 
 var gatePos = map[string]*hooking.HookPos{
@@ -74,19 +111,84 @@ var gatePos = map[string]*hooking.HookPos{
 	"retrieveout": messaging.HookPosPortMsgRetrieveOutgoing,
 }
 
-type gateHook struct {
-	pos     *hooking.HookPos
+// gate parks the first goroutine that reaches it while it is armed (one shot).
+type gate struct {
 	armed   atomic.Bool
 	parked  chan struct{}
 	release chan struct{}
 }
 
-func (g *gateHook) Func(ctx hooking.HookCtx) {
-	if ctx.Pos != g.pos || !g.armed.CompareAndSwap(true, false) {
+func newGate() *gate {
+	g := &gate{parked: make(chan struct{}), release: make(chan struct{})}
+	g.armed.Store(true)
+	return g
+}
+
+func (g *gate) park() {
+	if !g.armed.CompareAndSwap(true, false) {
 		return
 	}
 	close(g.parked)
 	<-g.release
+}
+
+type gateHook struct {
+	pos *hooking.HookPos
+	g   *gate
+}
+
+func (h *gateHook) Func(ctx hooking.HookCtx) {
+	if ctx.Pos == h.pos {
+		h.g.park()
+	}
+}
+
+// gatedMsg is a message whose k-th Meta() call parks on the gate: the port reads a message only through
+// the messaging.Msg interface, so the harness message is a legitimate place to stop an operation.
+type gatedMsg struct {
+	meta  messaging.MsgMeta
+	at    int64
+	calls atomic.Int64
+	g     *gate
+}
+
+func (m *gatedMsg) Meta() messaging.MsgMeta {
+	if m.calls.Add(1) == m.at {
+		m.g.park()
+	}
+	return m.meta
+}
+
+var notifyOf = map[string]string{"send": "send", "deliver": "recv", "retrievein": "available", "retrieveout": "free"}
+
+// install places the gate for operation a on the port object and returns the operation to run.
+func (o *portObj) install(a cOp, g *gate) func() any {
+	switch {
+	case a.Gate == "" || a.Gate == "hook":
+		o.p.AcceptHook(&gateHook{pos: gatePos[a.Op], g: g})
+	case a.Gate == "notify":
+		kind := notifyOf[a.Op]
+		f := func(k string) {
+			if k == kind {
+				g.park()
+			}
+		}
+		o.owner.onNotify, o.conn.onNotify = f, f
+	case len(a.Gate) > 4 && a.Gate[:4] == "meta" && a.Op == "send":
+		at := int64(0)
+		fmt.Sscanf(a.Gate[4:], "%d", &at)
+		m := &gatedMsg{meta: o.msg(a.Arg, true).Meta(), at: at, g: g}
+		return func() (v any) {
+			defer func() {
+				if r := recover(); r != nil {
+					v = "refused"
+				}
+			}()
+			o.p.Send(m)
+			return "ok"
+		}
+	}
+	return func() any { return o.val1(a) }
 }
 
 // val1 performs one operation without any cross-check and returns its value.
@@ -149,7 +251,12 @@ func (g *seqGraph) step(node int, op cOp) (fEdge, bool) {
 	return g.edges[ei], true
 }
 
-func runPair(g *seqGraph, st cState, a cOp, b []cOp, wait time.Duration, out *cOutput, mu *sync.Mutex) *cMismatch {
+func runPair(g *seqGraph, st cState, a cOp, b []cOp, wait time.Duration, out *cOutput, mu *sync.Mutex, id, recordEvery int) (mis *cMismatch) {
+	defer func() {
+		if mis != nil {
+			mis.ID = id
+		}
+	}()
 	node := g.nodes[st.Node]
 	o := newPortObj(replay.Num(replay.Field(node, "ic")), replay.Num(replay.Field(node, "oc")))
 	for _, op := range st.Path {
@@ -159,14 +266,13 @@ func runPair(g *seqGraph, st cState, a cOp, b []cOp, wait time.Duration, out *cO
 		return &cMismatch{Kind: "setup", State: node, Path: st.Path, A: a, B: b, Observed: map[string]any{"obs": got}}
 	}
 	r0, f0, s0, a0 := o.owner.recv.Load(), o.owner.free.Load(), o.conn.send.Load(), o.conn.available.Load()
-	gate := &gateHook{pos: gatePos[a.Op], parked: make(chan struct{}), release: make(chan struct{})}
-	gate.armed.Store(true)
-	o.p.AcceptHook(gate)
+	gate := newGate()
+	runA := o.install(a, gate)
 
 	var resA any
 	resB := make([]any, len(b))
 	doneA, doneB := make(chan struct{}), make(chan struct{})
-	go func() { resA = o.val1(a); close(doneA) }()
+	go func() { resA = runA(); close(doneA) }()
 	parked := false
 	select {
 	case <-gate.parked:
@@ -198,6 +304,9 @@ func runPair(g *seqGraph, st cState, a cOp, b []cOp, wait time.Duration, out *cO
 			dead = true
 		}
 	}
+	// notifications of the two racing operations only: taken before the final drain, whose own retrieves may notify too
+	seen := map[string]int64{"recv": o.owner.recv.Load() - r0, "free": o.owner.free.Load() - f0,
+		"send": o.conn.send.Load() - s0, "available": o.conn.available.Load() - a0}
 	var final map[string]any
 	if !dead {
 		// a panic inside the port while it holds its lock leaves the port locked: drain under a watchdog too
@@ -210,12 +319,21 @@ func runPair(g *seqGraph, st cState, a cOp, b []cOp, wait time.Duration, out *cO
 		}
 	}
 	mu.Lock()
+	bg := out.ByGate[gateName(a)]
+	if bg == nil {
+		bg = &[4]int{}
+		out.ByGate[gateName(a)] = bg
+	}
+	bg[0]++
 	if parked {
 		out.Parked++
+		bg[1]++
 		if bInside {
 			out.BRanInside++
+			bg[2]++
 		} else {
 			out.BBlocked++
+			bg[3]++
 		}
 	}
 	mu.Unlock()
@@ -224,8 +342,17 @@ func runPair(g *seqGraph, st cState, a cOp, b []cOp, wait time.Duration, out *cO
 			Observed: map[string]any{"note": "an operation (or the final drain) did not return within 10 s after the gate was released: the port is left locked or blocked",
 				"a": fmt.Sprint(resAIfDone(doneA, &resA)), "a_parked": parked}}
 	}
-	seen := map[string]int64{"recv": o.owner.recv.Load() - r0, "free": o.owner.free.Load() - f0,
-		"send": o.conn.send.Load() - s0, "available": o.conn.available.Load() - a0}
+	if recordEvery > 0 && parked && id%recordEvery == 0 {
+		rb := make([]any, len(b))
+		for i, op := range b {
+			rb[i] = map[string]any{"op": op.Op, "arg": op.Arg, "val": replay.Norm(resB[i])}
+		}
+		rec := map[string]any{"id": id, "gate": gateName(a), "init": node, "a": map[string]any{"op": a.Op, "arg": a.Arg, "val": replay.Norm(resA)},
+			"b": rb, "final": replay.Norm(final), "seen": seen, "b_completed_while_a_parked": bInside}
+		mu.Lock()
+		out.Records = append(out.Records, rec)
+		mu.Unlock()
+	}
 	observed := map[string]any{"a": replay.Norm(resA), "b": replay.Norm(resB), "final": replay.Norm(final), "notifications": seen,
 		"a_parked": parked, "b_completed_while_a_parked": bInside}
 
@@ -320,8 +447,9 @@ func runPortConc(raw json.RawMessage) (any, error) {
 		st cState
 		a  cOp
 		b  []cOp
+		id int
 	}
-	out := &cOutput{ByPair: map[string]int{}}
+	out := &cOutput{ByPair: map[string]int{}, ByGate: map[string]*[4]int{}}
 	jobs := make(chan job, 256)
 	var mu sync.Mutex
 	var wg sync.WaitGroup
@@ -330,10 +458,14 @@ func runPortConc(raw json.RawMessage) (any, error) {
 		go func() {
 			defer wg.Done()
 			for j := range jobs {
-				m := runPair(g, j.st, j.a, j.b, time.Duration(in.WaitUS)*time.Microsecond, out, &mu)
+				every := 0
+				if in.Record {
+					every = max(in.RecordEvery, 1)
+				}
+				m := runPair(g, j.st, j.a, j.b, time.Duration(in.WaitUS)*time.Microsecond, out, &mu, j.id, every)
 				if m != nil && m.Kind == "deadlock" {
 					// confirm on a fresh port before reporting (a stalled machine must not look like a blocked port)
-					m = runPair(g, j.st, j.a, j.b, time.Duration(in.WaitUS)*time.Microsecond, out, &mu)
+					m = runPair(g, j.st, j.a, j.b, time.Duration(in.WaitUS)*time.Microsecond, out, &mu, j.id, 0)
 				}
 				if m != nil {
 					mu.Lock()
@@ -349,8 +481,11 @@ func runPortConc(raw json.RawMessage) (any, error) {
 	for _, st := range in.States {
 		for _, a := range in.AOps {
 			for _, b := range in.BSeqs {
+				if in.SameBufferOnly && !sameBuffer(a, b) {
+					continue
+				}
 				out.Cases++
-				k := a.Op + " || "
+				k := gateName(a) + " || "
 				for i, op := range b {
 					if i > 0 {
 						k += ";"
@@ -358,7 +493,7 @@ func runPortConc(raw json.RawMessage) (any, error) {
 					k += op.Op
 				}
 				out.ByPair[k]++
-				jobs <- job{st, a, b}
+				jobs <- job{st, a, b, out.Cases}
 			}
 		}
 	}
